@@ -14,7 +14,7 @@ import (
 // expiries and the (separately scheduled) timer callbacks are placed at every
 // scheduling point within the deviation bound.
 
-var c09sets = []string{"zero", "past", "+5ms", "+10ms", "+20ms"}
+var c09sets = []string{"zero", "past", "+5ms", "+10ms", "+20ms", "+400y"}
 
 func c09scenario(steps, bound int, gaps bool) *explore.Scenario {
 	name := fmt.Sprintf("deadline %d sets", steps)
@@ -71,6 +71,8 @@ func c09scenario(steps, bound int, gaps bool) *explore.Scenario {
 					t = zzvsched.Now().Add(10 * time.Millisecond)
 				case "+20ms":
 					t = zzvsched.Now().Add(20 * time.Millisecond)
+				case "+400y":
+					t = zzvsched.Base.AddDate(400, 0, 0) // further away than a time.Duration can express
 				}
 				d.Set(t)
 				last = t
@@ -93,7 +95,7 @@ func c09scenario(steps, bound int, gaps bool) *explore.Scenario {
 			}
 			zzvsched.SleepIdle(100 * time.Millisecond)
 			finalSignalled = obs("at quiescence")
-			finalWant = !last.IsZero()
+			finalWant = !last.IsZero() && last.Sub(zzvsched.Base) < 100*365*24*time.Hour && last.Year() < 2300
 			if finalWant && !finalSignalled {
 				ch := d.Done()
 				fail("C09 not-signalled", "at quiescence, 100 ms later: the latest Set (%v) has passed but Done closed=%v Err=%v", last.Sub(zzvsched.Base), closedCh(ch), d.Err())
